@@ -301,7 +301,7 @@ impl ShardCtx {
         let spent = self.start.elapsed();
         let budget = if spent > self.budget { self.budget } else { self.budget };
         let _ = spent;
-        Clock { t0: Instant::now(), budget, hard: self.start + self.budget * 2 + Duration::from_secs(30) }
+        Clock { t0: Instant::now(), budget, hard: self.start + self.budget * 3 + Duration::from_secs(420) }
     }
     pub fn rng(&self, index: u64) -> StdRng {
         rng_for(self.seed, self.shard, index)
